@@ -1759,11 +1759,30 @@ public:
 
       base_domain_t left_dom(m_base_dom);
       base_domain_t right_dom(other.m_base_dom);
-
-      m_cell_ghost_man.join(other.m_cell_ghost_man, left_dom, right_dom);
+      cell_ghost_man_t left_cell_ghost_man(m_cell_ghost_man);
+      cell_ghost_man_t right_cell_ghost_man(other.m_cell_ghost_man);
 
       // We need to be careful if one array state is smashed and the
-      // other is not.
+      // other is not. If an array is smashed only on the right then
+      // we smash it also on the left (as the join does) so that both
+      // base domains talk about the same variable. This can only
+      // make the left operand bigger so the answer remains sound.
+      for (auto it = other.m_array_map.begin(), et = other.m_array_map.end();
+           it != et; ++it) {
+        const variable_t &a = it->first;
+        const array_state &right_as = it->second;
+        if (!right_as.is_smashed()) {
+          continue;
+        }
+        const array_state *left_as = m_array_map.find(a);
+        if (left_as && !left_as->is_smashed()) {
+          // only left_cell_ghost_man and left_dom are modified
+          left_as->join(a, right_as, left_cell_ghost_man, left_dom,
+                        right_cell_ghost_man, right_dom);
+        }
+      }
+      left_cell_ghost_man.join(right_cell_ghost_man, left_dom, right_dom);
+
       bool res = (left_dom <= right_dom);
       CRAB_LOG("array-adaptive", crab::outs() << "Res=" << res << "\n";);
       return res;
